@@ -15,7 +15,7 @@ import (
 func init() {
 	register(&Property{
 		ID:        "C13",
-		Technique: "call-graph closure from the receive entry points (static + VTA), compiler BCE report backed by a difference-constraint prover over the dominating comparisons (an/bounds.go) and a reviewed residual table, panic-site scan with precondition discharge by dominating guards, loop classification, guarded allocation sizes",
+		Technique: "call-graph closure from the receive entry points (static + VTA), compiler BCE report backed by a difference-constraint prover over the dominating comparisons (an/bounds.go) and a reviewed residual table, panic-site scan with precondition discharge by dominating guards, loop classification, guarded allocation sizes; tested-then-dropped error (contradiction) check and interprocedural lock-pairing check over the packages the property is anchored in",
 		Explanation: "Over the closure of functions reachable (static calls and VTA-resolved dynamic calls, library packages only) from the receive entry points — frame/packet readers, error and metadata decoders, code extraction, packet dispatch in stream and manager, the mux, the server's RPC handler and the HTTP gateway: " +
 			"(R1) every index/slice bounds check is proved by the Go compiler, or implied by the dominating comparisons (difference-constraint prover over SSA values and lengths, an/bounds.go), or is one of the reviewed residuals (keyed by function and expression, each with its reason); " +
 			"(R2) there is no unchecked type assertion, explicit panic, division by a variable, and every call to a partial library function (strings.Builder.Grow, reflect.Value methods, ...) has its precondition established by a dominating guard; " +
